@@ -94,3 +94,8 @@ json.dump({"values": ref, "source": src, "disagree": {k: list(v) for k, v in dis
 with open(os.path.join(HERE, 'abi_reference.txt'), 'w') as f:
     for n in sorted(ref):
         f.write(f"{n} {ref[n]} {src[n]}\n")
+# names on which the two headers disagree: both candidate values (glibc, LLVM); the monitor accepts either, and
+# requires names whose candidates are each other's permutation to follow one header as a group
+with open(os.path.join(HERE, 'abi_reference_disagree.txt'), 'w') as f:
+    for n in sorted(disagree):
+        f.write(f"{n} {disagree[n][0]} {disagree[n][1]}\n")
